@@ -292,5 +292,133 @@ theorem rotation_matrix_ell1_Kreal (L : ℕ) (hL : 1 ≤ L) (st : μ) (R : Quat 
 
 end
 
+/-! ### instances: the hypotheses are satisfiable and the statements have content -/
+
+/-- (1/2, 1/2, 1/2, 1/2)·(3/5, 0, 4/5, 0) = (−1/10, −1/10, 7/10, 7/10) -/
+theorem qmul_example : qmul ⟨1/2, 1/2, 1/2, 1/2⟩ ⟨3/5, 0, 4/5, 0⟩ = ⟨-1/10, -1/10, 7/10, 7/10⟩ := by
+  simp only [qmul, Quat.mk.injEq]; norm_num
+
+/-- ℓ = 1, P = (1/2, 1/2, 1/2, 1/2), Q = (3/5, 0, 4/5, 0): the three calls on different calculators (sizes 2, 1, 3)
+    and workspace contents (7's, 0's, −1's) -/
+example (mp m : ℤ) (hmp : mp.natAbs ≤ 1) (hm : m.natAbs ≤ 1) :
+    toC (objD 2 (fun _ : Loc => (7 : ℝ)) (-1/10) (-1/10) (7/10) (7/10) imsqrtR 1 mp m)
+      = ∑ k ∈ Finset.Icc (-1 : ℤ) 1,
+          toC (objD 1 (fun _ : Loc => (0 : ℝ)) (1/2) (1/2) (1/2) (1/2) imsqrtR 1 mp k)
+            * toC (objD 3 (fun _ : Loc => (-1 : ℝ)) (3/5) 0 (4/5) 0 imsqrtR 1 k m) := by
+  have h := D_hom_ell1 2 1 3 (by decide) (by decide) (by decide) (fun _ : Loc => (7 : ℝ))
+    (fun _ : Loc => (0 : ℝ)) (fun _ : Loc => (-1 : ℝ)) ⟨1/2, 1/2, 1/2, 1/2⟩ ⟨3/5, 0, 4/5, 0⟩ (by norm_num)
+    (by norm_num) imsqrtR imsqrtR imsqrtR imsqrtR_spec imsqrtR_spec imsqrtR_spec mp m hmp hm
+  rw [qmul_example] at h
+  exact h
+
+/-- the same product, entry (1, 1), as a number: the matrix product
+    𝔇(P)_{1,−1}𝔇(Q)_{−1,1} + 𝔇(P)_{1,0}𝔇(Q)_{0,1} + 𝔇(P)_{1,1}𝔇(Q)_{1,1} = (−i/2)(16/25) + (−√2/2)(12√2/25) + (i/2)(9/25)
+    is R_a(PQ)² = (−1/10 + 7i/10)² = −12/25 − 7i/50 -/
+example :
+    ∑ k ∈ Finset.Icc (-1 : ℤ) 1,
+        toC (objD 1 (fun _ : Loc => (0 : ℝ)) (1/2) (1/2) (1/2) (1/2) imsqrtR 1 1 k)
+          * toC (objD 3 (fun _ : Loc => (-1 : ℝ)) (3/5) 0 (4/5) 0 imsqrtR 1 k 1)
+      = -12/25 - 7/50 * Complex.I := by
+  have h := D_hom_ell1 2 1 3 (by decide) (by decide) (by decide) (fun _ : Loc => (7 : ℝ))
+    (fun _ : Loc => (0 : ℝ)) (fun _ : Loc => (-1 : ℝ)) ⟨1/2, 1/2, 1/2, 1/2⟩ ⟨3/5, 0, 4/5, 0⟩ (by norm_num)
+    (by norm_num) imsqrtR imsqrtR imsqrtR imsqrtR_spec imsqrtR_spec imsqrtR_spec 1 1 (by decide) (by decide)
+  rw [← h, qmul_example]
+  have e := (D_ell1_entries 2 (by decide) (fun _ : Loc => (7 : ℝ)) (-1/10) (-1/10) (7/10) (7/10) (by norm_num)
+    imsqrtR imsqrtR_spec).2.2.2.2.2.2.2.2
+  simp only [] at e
+  rw [e]
+  have hA : Ra (-1/10) (7/10) = -1/10 + 7/10 * Complex.I := by apply Complex.ext <;> simp [Ra]
+  rw [hA]
+  have := Complex.I_sq
+  grind
+
+/-- ℓ = 2, same rotors, all 25 entries, calculators of sizes 2, 3, 4 -/
+example (mp m : ℤ) (hmp : mp.natAbs ≤ 2) (hm : m.natAbs ≤ 2) :
+    toC (objD 2 (fun _ : Loc => (7 : ℝ)) (-1/10) (-1/10) (7/10) (7/10) imsqrtR 2 mp m)
+      = ∑ k ∈ Finset.Icc (-2 : ℤ) 2,
+          toC (objD 3 (fun _ : Loc => (0 : ℝ)) (1/2) (1/2) (1/2) (1/2) imsqrtR 2 mp k)
+            * toC (objD 4 (fun _ : Loc => (-1 : ℝ)) (3/5) 0 (4/5) 0 imsqrtR 2 k m) := by
+  have h := D_hom_ell2 2 3 4 (by decide) (by decide) (by decide) (fun _ : Loc => (7 : ℝ))
+    (fun _ : Loc => (0 : ℝ)) (fun _ : Loc => (-1 : ℝ)) ⟨1/2, 1/2, 1/2, 1/2⟩ ⟨3/5, 0, 4/5, 0⟩ (by norm_num)
+    (by norm_num) imsqrtR imsqrtR imsqrtR imsqrtR_spec imsqrtR_spec imsqrtR_spec mp m hmp hm
+  rw [qmul_example] at h
+  exact h
+
+/-- ℓ = 2 entry (2, 2) of the product as a number: R_a(PQ)⁴ = (−1/10 + 7i/10)⁴ = 527/2500 + 84i/625 -/
+example :
+    ∑ k ∈ Finset.Icc (-2 : ℤ) 2,
+        toC (objD 3 (fun _ : Loc => (0 : ℝ)) (1/2) (1/2) (1/2) (1/2) imsqrtR 2 2 k)
+          * toC (objD 4 (fun _ : Loc => (-1 : ℝ)) (3/5) 0 (4/5) 0 imsqrtR 2 k 2)
+      = 527/2500 + 84/625 * Complex.I := by
+  have h := D_hom_ell2 2 3 4 (by decide) (by decide) (by decide) (fun _ : Loc => (7 : ℝ))
+    (fun _ : Loc => (0 : ℝ)) (fun _ : Loc => (-1 : ℝ)) ⟨1/2, 1/2, 1/2, 1/2⟩ ⟨3/5, 0, 4/5, 0⟩ (by norm_num)
+    (by norm_num) imsqrtR imsqrtR imsqrtR imsqrtR_spec imsqrtR_spec imsqrtR_spec 2 2 (by decide) (by decide)
+  rw [← h, qmul_example]
+  rw [D2_p2_p2 2 (fun _ : Loc => (7 : ℝ)) (-1/10) (-1/10) (7/10) (7/10) (by norm_num) imsqrtR imsqrtR_spec
+    (by decide)]
+  have hA : Ra (-1/10) (7/10) = -1/10 + 7/10 * Complex.I := by apply Complex.ext <;> simp [Ra]
+  rw [hA]
+  have := Complex.I_sq
+  grind
+
+/-- unitarity at (3/5, 0, 4/5, 0), ℓ = 2: row 0 has norm 1 and is orthogonal to row 1;
+    at (1/2, 1/2, 1/2, 1/2), ℓ = 1: row −1 has norm 1 -/
+example :
+    ∑ k ∈ Finset.Icc (-2 : ℤ) 2,
+        toC (objD 2 (fun _ : Loc => (0 : ℝ)) (3/5) 0 (4/5) 0 imsqrtR 2 0 k)
+          * conj (toC (objD 2 (fun _ : Loc => (0 : ℝ)) (3/5) 0 (4/5) 0 imsqrtR 2 0 k)) = 1 ∧
+    ∑ k ∈ Finset.Icc (-2 : ℤ) 2,
+        toC (objD 2 (fun _ : Loc => (0 : ℝ)) (3/5) 0 (4/5) 0 imsqrtR 2 0 k)
+          * conj (toC (objD 2 (fun _ : Loc => (0 : ℝ)) (3/5) 0 (4/5) 0 imsqrtR 2 1 k)) = 0 ∧
+    ∑ k ∈ Finset.Icc (-1 : ℤ) 1,
+        toC (objD 1 (fun _ : Loc => (7 : ℝ)) (1/2) (1/2) (1/2) (1/2) imsqrtR 1 (-1) k)
+          * conj (toC (objD 1 (fun _ : Loc => (7 : ℝ)) (1/2) (1/2) (1/2) (1/2) imsqrtR 1 (-1) k)) = 1 :=
+  ⟨D_unitary_ell2 2 (by decide) _ ⟨3/5, 0, 4/5, 0⟩ (by norm_num) imsqrtR imsqrtR_spec 0 0 (by decide) (by decide),
+   D_unitary_ell2 2 (by decide) _ ⟨3/5, 0, 4/5, 0⟩ (by norm_num) imsqrtR imsqrtR_spec 0 1 (by decide) (by decide),
+   D_unitary_ell1 1 (by decide) _ ⟨1/2, 1/2, 1/2, 1/2⟩ (by norm_num) imsqrtR imsqrtR_spec (-1) (-1) (by decide)
+     (by decide)⟩
+
+/-- inverse and sign at (1/2, 1/2, 1/2, 1/2): 𝔇²(R̄)_{2,1} = conj 𝔇²(R)_{1,2}, 𝔇¹(−R)_{0,1} = 𝔇¹(R)_{0,1} -/
+example :
+    toC (objD 2 (fun _ : Loc => (7 : ℝ)) (1/2) (-(1/2)) (-(1/2)) (-(1/2)) imsqrtR 2 2 1)
+      = conj (toC (objD 3 (fun _ : Loc => (0 : ℝ)) (1/2) (1/2) (1/2) (1/2) imsqrtR 2 1 2)) ∧
+    toC (objD 2 (fun _ : Loc => (7 : ℝ)) (-(1/2)) (-(1/2)) (-(1/2)) (-(1/2)) imsqrtR 1 0 1)
+      = toC (objD 3 (fun _ : Loc => (0 : ℝ)) (1/2) (1/2) (1/2) (1/2) imsqrtR 1 0 1) :=
+  ⟨D_inverse_ell2 2 3 (by decide) (by decide) (fun _ : Loc => (7 : ℝ)) (fun _ : Loc => (0 : ℝ))
+     ⟨1/2, 1/2, 1/2, 1/2⟩ (by norm_num) imsqrtR imsqrtR imsqrtR_spec imsqrtR_spec 2 1 (by decide) (by decide),
+   D_neg_ell1 2 3 (by decide) (by decide) (fun _ : Loc => (7 : ℝ)) (fun _ : Loc => (0 : ℝ))
+     ⟨1/2, 1/2, 1/2, 1/2⟩ (by norm_num) imsqrtR imsqrtR imsqrtR_spec imsqrtR_spec 0 1 (by decide) (by decide)⟩
+
+/-- R = (1/2, 1/2, 1/2, 1/2) is the rotation by 2π/3 about (1,1,1): x → y → z → x, so (1, 2, 3) ↦ (3, 1, 2) -/
+theorem rotVec_example : rotVec ⟨1/2, 1/2, 1/2, 1/2⟩ ⟨1, 2, 3⟩ = ⟨3, 1, 2⟩ := by
+  simp only [rotVec, qmul, qconj, Vec3.mk.injEq]; norm_num
+
+/-- the weights of (1, 2, 3) rotated with 𝔇¹(R̄), R̄ = (1/2, −1/2, −1/2, −1/2): the m = 0 weight becomes
+    2·√(4π/3) — the z component of (3, 1, 2) — and the m = −1 weight (3 + i)·√(2π/3) -/
+example :
+    ∑ mp ∈ Finset.Icc (-1 : ℤ) 1,
+        wAt (vectorAsEll1R OpsL.Kreal ⟨1, 2, 3⟩) mp
+          * toC (objD 1 (fun _ : Loc => (7 : ℝ)) (1/2) (-(1/2)) (-(1/2)) (-(1/2)) imsqrtR 1 mp 0)
+      = ((2 * Real.sqrt (4 * Real.pi / 3) : ℝ) : ℂ) ∧
+    ∑ mp ∈ Finset.Icc (-1 : ℤ) 1,
+        wAt (vectorAsEll1R OpsL.Kreal ⟨1, 2, 3⟩) mp
+          * toC (objD 1 (fun _ : Loc => (7 : ℝ)) (1/2) (-(1/2)) (-(1/2)) (-(1/2)) imsqrtR 1 mp (-1))
+      = (3 + Complex.I) * ((Real.sqrt (2 * Real.pi / 3) : ℝ) : ℂ) := by
+  have h0 := rotation_matrix_ell1_Kreal 1 (by decide) (fun _ : Loc => (7 : ℝ)) ⟨1/2, 1/2, 1/2, 1/2⟩ (by norm_num)
+    imsqrtR imsqrtR_spec ⟨1, 2, 3⟩ 0 (by decide)
+  have h1 := rotation_matrix_ell1_Kreal 1 (by decide) (fun _ : Loc => (7 : ℝ)) ⟨1/2, 1/2, 1/2, 1/2⟩ (by norm_num)
+    imsqrtR imsqrtR_spec ⟨1, 2, 3⟩ (-1) (by decide)
+  rw [rotVec_example] at h0 h1
+  obtain ⟨f1, f2, _⟩ := wAt_vec OpsL.Kreal ⟨3, 1, 2⟩
+  constructor
+  · refine h0.trans ?_
+    rw [f2]
+    show ((2 : ℝ) : ℂ) * ((Real.sqrt (4 * Real.pi / 3) : ℝ) : ℂ) = _
+    push_cast; ring
+  · refine h1.trans ?_
+    rw [f1]
+    show (((3 : ℝ) : ℂ) + Complex.I * ((1 : ℝ) : ℂ)) * ((Real.sqrt (2 * Real.pi / 3) : ℝ) : ℂ) = _
+    push_cast; ring
+
 end DHom
 end
